@@ -46,7 +46,9 @@ class SaltedStr(str):
         return o
 
     def __hash__(self):
-        return hash((str.__str__(self), 'salt', self._salt))
+        # independent of PYTHONHASHSEED, so that a salted case replays in any interpreter
+        import zlib
+        return zlib.crc32(('%s|%d' % (str.__str__(self), self._salt)).encode()) * 2654435761 % (1 << 61)
 
     def __eq__(self, o):
         return str.__eq__(self, o)
